@@ -16,7 +16,7 @@ use std::collections::BTreeMap;
 
 pub struct CliRejects;
 
-pub const KINDS: [&str; 27] = [
+pub const KINDS: [&str; 28] = [
     "truncate",
     "truncate",
     "empty",
@@ -29,6 +29,7 @@ pub const KINDS: [&str; 27] = [
     "json:wrong_type",
     "json:prob_missing",
     "json:trailing_value",
+    "json:duplicate_field",
     "both:prob_zero",
     "both:prob_negative",
     "json:weights_all_negative",
@@ -426,6 +427,18 @@ impl CliRejects {
                 }
                 Ok(vec![one(replace_nth(&text, "\"prob\": ", "\"weight\": ", r).ok_or("not-applicable")?.into_bytes(), "file_semantic_json_prob_missing", Some(vec!["#json-error"]))])
             }
+            "json:duplicate_field" => {
+                if fmt != Format::Json {
+                    return Err("not-applicable");
+                }
+                // a field given twice (the first copy with a value that would be invalid or different)
+                let t = match r.below(3) {
+                    0 => replace_nth(&text, "\"prob\": ", "\"prob\": 0, \"prob\": ", r),
+                    1 => replace_nth(&text, "\"player_one\": true", "\"player_one\": false, \"player_one\": true", r),
+                    _ => replace_nth(&text, "{\"terminal\": ", "{\"terminal\": 7, \"terminal\": ", r),
+                };
+                Ok(vec![one(t.ok_or("not-applicable")?.into_bytes(), "file_semantic_json_duplicate_field", Some(vec!["#json-error"]))])
+            }
             "json:trailing_value" => {
                 if fmt != Format::Json {
                     return Err("not-applicable");
@@ -528,6 +541,12 @@ impl CliRejects {
                 }
                 let mut style = EfgStyle::plain();
                 style.constant_milli = *r.pick(&[0i64, 20_000, -20_000, 200_000]);
+                // sometimes with (zero-sum) payments on interior nodes: the tolerance is about the
+                // payoffs the players end up with, not about the numbers in the outcome table
+                if r.coin(0.5) {
+                    style.p_interior_payoff = 0.4;
+                    style.zero_sum_only = true;
+                }
                 let mut rr = Rng::new(case.style_seed);
                 let plain = to_efg(&case.game, &mut rr, &style).text;
                 let lines: Vec<&str> = plain.lines().collect();
